@@ -15,6 +15,8 @@ def pmap(fn, items, procs=None, chunksize=1, timeout=1500):
     procs = procs or min(16, os.cpu_count() or 1, max(1, len(items)))
     if procs <= 1 or len(items) <= 1:
         return [fn(x) for x in items]
+    if os.environ.get("VERIF_TIER") == "thorough" or os.environ.get("VF_THOROUGH"):
+        timeout = max(timeout, 6 * 3600)
     _FN = fn
     ctx = mp.get_context("fork")
     with ctx.Pool(procs) as pool:
